@@ -115,7 +115,7 @@ var plans = map[string]*plan{
 		Quick:          []batchSpec{{Test: "TestC01Seq", N: 8, Timeout: 15 * m}, {Test: "TestC01Conc", N: 4, Timeout: 15 * m}, {Test: "TestC01Stress", N: 4, Timeout: 15 * m}, {Test: "TestC01Backpressure", N: 4, Timeout: 15 * m}},
 		Thorough:       []batchSpec{{Test: "TestC01Seq", N: 16, Timeout: 60 * m}, {Test: "TestC01Conc", N: 16, Timeout: 60 * m}, {Test: "TestC01Conc", N: 4, Race: true, Timeout: 60 * m}, {Test: "TestC01Stress", N: 8, Timeout: 60 * m}, {Test: "TestC01Backpressure", N: 8, Timeout: 60 * m}},
 		EvalStats:      []string{"c01.seq.publishes", "c01.conc.ops", "c01s.published"},
-		Floors:         map[string]int64{"c01.seq.histories": 1300, "c01.seq.publishes": 12000, "c01.seq.wildcard_must": 3000, "c01.seq.wildcard_mustnot": 20000, "c01.conc.histories": 190, "c01.conc.ops": 15000, "c01s.runs": 22, "c01s.exactly_once_streams": 3000, "c01.bp.runs": 110, "classes": 400},
+		Floors:         map[string]int64{"c01.seq.histories": 1300, "c01.seq.publishes": 12000, "c01.seq.wildcard_must": 3000, "c01.seq.wildcard_mustnot": 20000, "c01.conc.histories": 190, "c01.conc.ops": 15000, "c01s.runs": 22, "c01s.exactly_once_streams": 2000, "c01.bp.runs": 110, "classes": 400},
 		FloorsThorough: map[string]int64{"c01.seq.histories": 30000, "c01.seq.publishes": 300000, "classes": 600},
 		Assumptions:    []string{"synctest.Wait() returns only when every goroutine of broker and harness is durably blocked, i.e. at quiescence", "raw clients acknowledge promptly; takeover of a live client id is not exercised"},
 	},
@@ -216,11 +216,11 @@ var plans = map[string]*plan{
 	"C16": {
 		Level: "fault_enumeration",
 		Rule: "teardown matrix in a synctest bubble (net.Pipe, 16 KiB rings): cause {DISCONNECT, abrupt close, keep-alive expiry in virtual time, protocol error, Server.Close} x buffer condition {idle; own outbound ring full because the subscriber stopped reading and the publisher's processor is parked in its WriteWait; publisher's inbound ring full as well; cross-blocked pair publishing to each other, both not reading; the connection's own inbound ring holding an incomplete message almost as large as the ring behind a small one (less than one read block free)} x order in which the two connections end x will present/absent x CleanSession 0/1 (200 cells), plus 32 pipelined cells: the publisher's processor is parked on a delivery to a subscriber that stopped reading (decided on the processor's handled-packet events), the packet right behind the blocked PUBLISH is a DISCONNECT or a malformed packet, traffic of four packet sizes behind it keeps the publisher's inbound ring full and its receiver parked for space, then the subscriber reads again and the publisher's teardown must finish at the next quiescence. " +
-			"Oracle once every connection that had stopped reading has been ended: exactly one teardown-finished event per connection, wills seen by a witness exactly once unless the end was a DISCONNECT, a probe publish to the dead client's filter is acknowledged and reaches nobody, a clean session is gone, Server.Close returns, and a goroutine snapshot shows no frame of the library. A parked Server.Close or leftover goroutine is reported with its stack; a mutex deadlock (not durably blocked, so synctest.Wait cannot return) is caught by the process-wide deadlock watchdog. Window cells (real time): the yield hook delays a goroutine of the victim connection between its done-check and its Cond.Wait on the inbound ring (processor), the outbound ring (sender) or the outbound ring seen from a publisher blocked for space, and the connection is ended (abrupt / DISCONNECT / Server.Close / keep-alive expiry) inside that window; teardown must still finish (stop.done event), decided by goroutine state otherwise. distinct = cells.",
-		Quick:          []batchSpec{{Test: "TestC16", N: 8, Timeout: 15 * m}, {Test: "TestC16Window", N: 3, Timeout: 15 * m}},
-		Thorough:       []batchSpec{{Test: "TestC16", N: 16, Timeout: 30 * m}, {Test: "TestC16Window", N: 6, Timeout: 30 * m}},
+			"Oracle once every connection that had stopped reading has been ended: exactly one teardown-finished event per connection, wills seen by a witness exactly once unless the end was a DISCONNECT, a probe publish to the dead client's filter is acknowledged and reaches nobody, a clean session is gone, Server.Close returns, and a goroutine snapshot shows no frame of the library. A parked Server.Close or leftover goroutine is reported with its stack; a mutex deadlock (not durably blocked, so synctest.Wait cannot return) is caught by the process-wide deadlock watchdog. Window cells (real time): the yield hook delays a goroutine of the victim connection between its done-check and its Cond.Wait on the inbound ring (processor), the outbound ring (sender) or the outbound ring seen from a publisher blocked for space, and the connection is ended (abrupt / DISCONNECT / Server.Close / keep-alive expiry) inside that window; teardown must still finish (stop.done event), decided by goroutine state otherwise. Close race (real time): 4..12 goroutines keep connecting (all dials issued before Close is called) while Server.Close runs at a seeded instant; after Close returned and with the clients idle, every connection that was answered with CONNACK 0 must have been ended by the broker and no library goroutine may remain (goroutine snapshots). distinct = cells.",
+		Quick:          []batchSpec{{Test: "TestC16", N: 8, Timeout: 15 * m}, {Test: "TestC16Window", N: 3, Timeout: 15 * m}, {Test: "TestC16CloseRace", N: 4, Timeout: 15 * m}},
+		Thorough:       []batchSpec{{Test: "TestC16", N: 16, Timeout: 30 * m}, {Test: "TestC16Window", N: 6, Timeout: 30 * m}, {Test: "TestC16CloseRace", N: 8, Timeout: 60 * m}},
 		EvalStats:      []string{"c16.cells"},
-		Floors:         map[string]int64{"c16.cells": 232, "c16.pipelined_cells": 32, "c16.window_cells": 30, "classes": 235},
+		Floors:         map[string]int64{"c16.cells": 232, "c16.pipelined_cells": 32, "c16.window_cells": 30, "c16.closerace_cases": 190, "c16.closerace_accepted": 1000, "classes": 235},
 		FloorsThorough: map[string]int64{"c16.cells": 928, "c16.pipelined_cells": 128, "c16.window_cells": 200, "classes": 235},
 		Exhaustive:     func(r *result) bool { return r.stats["c16.cells"] >= 232 },
 		Assumptions:    []string{"'bounded time' is decided at synctest quiescence (every goroutine durably blocked) plus goroutine-state inspection, not by a deadline", "read/write errors as a cause are exercised in C09 (chaos conn) and C05"},
